@@ -408,6 +408,16 @@ func c07run(k *mon.Case, st *c07stats, t *c07tables, lookups []gtab.LookupIndex,
 		if fresh == nil {
 			continue
 		}
+		if i == 0 {
+			// repetitions: the same input on two more fresh contexts
+			for rep := 0; rep < 2; rep++ {
+				again := c07apply(k, st, t, lookups, gtab.NewContext(t.ll, t.gd, lookups), gids, fmt.Sprintf("repeat %d", rep+1))
+				if again != nil && c06diff(again, fresh) != "" {
+					k.Fail("mismatch", "repeat-differs", "two fresh Contexts give different results on the same input\ninput %v\nfirst  %s\nsecond %s\nlookups %v\n%s",
+						gids, c06fmtRun(fresh), c06fmtRun(again), lookups, t.desc)
+				}
+			}
+		}
 		if f := c06diff(out, fresh); f != "" {
 			w := "repeat-differs"
 			if reuse && i > 0 {
